@@ -34,6 +34,7 @@ def run(S):
     for precond_norm in (False, True):
         _cg(S, precond_norm)
     _treigen(S)
+    _bounded_cg(S)
 
 
 # ---------------------------------------------------------------------------
@@ -218,7 +219,7 @@ def _treigen_form(S, form):
     V = onp.array([[c, -s], [s, c]], dtype=object) if form == 'rotation' else onp.array([[c, s], [s, -c]], dtype=object)
     sig = onp.array([s0, s1], dtype=object)
     A = V @ onp.diag(sig) @ V.T                     # every symmetric 2x2 matrix has this form
-    pre = [s0 <= s1, tm.eq(c * c + s * s, 1), Delta > 0]
+    pre = [s0 <= s1, tm.eq(c * c + s * s, 1), Delta > 0, tm.or_(tm.ne(s0, 0), tm.ne(s1, 0))]
     ns['eigh'] = lambda M: (sig.copy(), V.copy())   # contract of jnp.linalg.eigh: A v_i = sigma_i v_i, V^T V = I, ascending
     ns['norm'] = P.SymNp.linalg.norm
     ns['np'] = P.SymNp(onp)
@@ -245,7 +246,10 @@ def _treigen_form(S, form):
         o['pNorm_is_its_root'] = tm.eq(live['pNorm'], tm.sqrt(live['pNormSq']))
         o['bError_is_relative_boundary_error'] = tm.eq(live['bError'], (live['pNorm'] - Delta) / Delta)
         return o
-    vc.loops['solve#0'] = P.LoopSpec(inv, havoc)
+    def entry(live, ctx):
+        lam = tm.lift(live['lam'])
+        return OD(initial_shift_keeps_shifted_matrix_positive_definite=tm.and_(s0 + lam > 0, s1 + lam > 0))
+    vc.loops['solve#0'] = P.LoopSpec(inv, havoc, entry=entry)
     paths = P.explore(lambda: ns['solve'](A, b, Delta), pre)
     S.functions['treigen.solve'] = dict(file=info['file'], sha256=P.fn_sha(info['file'], 'solve'), frontend='P')
     nret = 0
@@ -327,3 +331,60 @@ def _treigen_replay(model):
                 returned_step=step.tolist(), norm_of_returned_step=float(onp.linalg.norm(step)),
                 model_at_returned_step=e_ret, model_minimum_over_ball=e_ref,
                 how='real treigen.solve on a hard-case instance built from the counter-model rotation vs the exact global minimum over the ball')
+
+
+# ---------------------------------------------------------------------------
+# bounded stand-in (labelled bounded, never counted as proved): preconditioned-norm containment
+# ---------------------------------------------------------------------------
+
+def _bounded_cg(S):
+    import numpy as onp
+    import jax.numpy as jnp
+    P.install_sksparse_stub()
+    from optimism import EquationSolver as ES
+    rng = onp.random.default_rng(S.seed + 606)
+    ncases = 60 if S.tier == 'quick' else 1000
+    fails = []
+    for case in range(ncases):
+        n = int(rng.integers(1, 41))
+        kind = case % 4
+        Q, _ = onp.linalg.qr(rng.standard_normal((n, n)))
+        ev = rng.uniform(0.1, 10, n) * 10 ** rng.uniform(-2, 2)
+        if kind == 1:
+            ev[: max(1, n // 3)] *= -1
+        elif kind == 2:
+            ev[0] = 0.0
+        H = (Q * ev) @ Q.T
+        Pm = (Q * (1.0 / (onp.abs(ev) + 10 ** rng.uniform(-3, 0)))) @ Q.T if case % 3 else onp.eye(n)
+        Pm = 0.5 * (Pm + Pm.T)
+        M = onp.linalg.inv(Pm)
+        g = rng.standard_normal(n) * 10 ** rng.uniform(-2, 2)
+        Delta = 10 ** rng.uniform(-6, 6)
+        for pmode in (False, True):
+            st = ES.get_settings(use_preconditioned_inner_product_for_cg=pmode, debug_info=False, max_cg_iters=int(rng.integers(1, 2 * n + 3)))
+            step, cauchyP, stype, its = ES.solve_trust_region_minimization(jnp.zeros(n), jnp.asarray(g), lambda v: jnp.asarray(H) @ v,
+                                                                           lambda v: jnp.asarray(Pm) @ v, Delta, st)
+            step = onp.asarray(step)
+            nrm = float(onp.sqrt(step @ (M @ step))) if pmode else float(onp.linalg.norm(step))
+            model = float(g @ step + 0.5 * step @ H @ step)
+            d0 = -Pm @ g
+            a0, dd0, rPr0 = float(d0 @ H @ d0), float(d0 @ (M @ d0) if pmode else d0 @ d0), float(g @ Pm @ g)
+            tau0 = Delta / onp.sqrt(dd0)
+            if a0 > 0 and (rPr0 / a0) ** 2 * dd0 <= Delta ** 2:
+                mC = -rPr0 ** 2 / (2 * a0)
+            else:
+                mC = -tau0 * rPr0 + 0.5 * tau0 ** 2 * a0
+            bad = None
+            tolr = 1e-6
+            if nrm > Delta * (1 + tolr):
+                bad = 'step outside the trust region: norm %.6g radius %.6g' % (nrm, Delta)
+            elif stype in (ES.boundaryString, ES.negCurveString) and abs(nrm - Delta) > tolr * Delta:
+                bad = '%s step has norm %.9g, radius %.9g' % (stype, nrm, Delta)
+            elif its > 0 and model > mC + tolr * (abs(mC) + 1e-300) + 1e-12 * float(onp.abs(g) @ onp.abs(step)):
+                bad = 'model value %.9g above the Cauchy value %.9g' % (model, mC)
+            if bad:
+                fails.append(dict(input=dict(n=n, H=H.tolist() if n <= 6 else 'n=%d seed-reproducible' % n, g=g.tolist()[:8], Delta=Delta,
+                                             preconditioned_norm=pmode, case=case, seed=S.seed + 606), observed=bad))
+    S.bounded_check('EquationSolver.solve_trust_region_minimization/bounded-radius-and-cauchy-in-both-norms',
+                    'real truncated CG on random problems (dimension 1..40, definite/indefinite/singular Hessians, exact-to-poor SPD preconditioners, radii over 12 decades, both inner-product modes): step inside the trust region in the configured norm, boundary steps have norm = radius, model <= Cauchy value',
+                    'dimension <= 40, %d problems x 2 modes' % ncases, 2 * ncases, fails)
